@@ -29,7 +29,7 @@ for d, cfgname, schname, keycls, tokcls in (("schemes/CJJ14/PiPtr", "PiPtrConfig
     CFG, SCH = scheme(d, cfgname, schname, ["param_lambda", "prf_f_output_length"],
                       {"prf_f": ("config.param_lambda", "config.prf_f_output_length")}, "param_lambda")
     KT, TT = TObj(d + "/structures.py:" + keycls), TObj(d + "/structures.py:" + tokcls)
-    contract(SCH + "._Gen", params=dict(self=TObj(SCH)), returns=KT, ensures=["len(result.K) == self.config.param_lambda"],
+    contract(SCH + "._Gen", modifies_ghost=["rng_n"], params=dict(self=TObj(SCH)), returns=KT, ensures=["len(result.K) == self.config.param_lambda", "result.K == draw(old(rng_n))", "rng_n == old(rng_n) + 1"],
              no_runtime=True, props=["C03", "C04"])
     contract(SCH + "._Trap", params=dict(self=TObj(SCH), K=KT, keyword=TBytes), returns=TT,
              requires=["len(K.K) == self.config.param_lambda", "self.config.prf_f_output_length > 0"],
@@ -45,7 +45,7 @@ CFG, SCH = scheme(d, "PiConfig", "Pi", ["param_k", "param_k_prime", "param_l"],
                   "param_k")
 KT, TT = TObj(d + "/structures.py:PiKey"), TObj(d + "/structures.py:PiToken")
 OUT = "self.config.param_k + self.config.param_k_prime"
-contract(SCH + "._Gen", params=dict(self=TObj(SCH)), returns=KT, ensures=["len(result.K) == self.config.param_k"], no_runtime=True, props=["C03", "C04"])
+contract(SCH + "._Gen", modifies_ghost=["rng_n"], params=dict(self=TObj(SCH)), returns=KT, ensures=["len(result.K) == self.config.param_k", "result.K == draw(old(rng_n))", "rng_n == old(rng_n) + 1"], no_runtime=True, props=["C03", "C04"])
 contract(SCH + "._Trap", params=dict(self=TObj(SCH), K=KT, keyword=TBytes), returns=TT,
          requires=["len(K.K) == self.config.param_k", OUT + " > 0"],
          ensures=["result.K0 == prf('sha1', %s, K.K, keyword)[:self.config.param_k]" % OUT,
@@ -60,7 +60,7 @@ CFG, SCH = scheme(d, "PiConfig", "Pi", ["param_lambda", "param_k", "param_k_prim
                   "param_lambda")
 KT, TT = TObj(d + "/structures.py:PiKey"), TObj(d + "/structures.py:PiToken")
 OUT = "self.config.param_k + self.config.param_k_prime + self.config.param_l + self.config.param_l_prime"
-contract(SCH + "._Gen", params=dict(self=TObj(SCH)), returns=KT, ensures=["len(result.K) == self.config.param_lambda"], no_runtime=True, props=["C03", "C04"])
+contract(SCH + "._Gen", modifies_ghost=["rng_n"], params=dict(self=TObj(SCH)), returns=KT, ensures=["len(result.K) == self.config.param_lambda", "result.K == draw(old(rng_n))", "rng_n == old(rng_n) + 1"], no_runtime=True, props=["C03", "C04"])
 contract(SCH + "._Trap", params=dict(self=TObj(SCH), K=KT, keyword=TBytes), returns=TT,
          requires=["self.config.prf.key_length == -1 or len(K.K) == self.config.prf.key_length", OUT + " > 0"],
          ensures=["result.li + result.Ki + result.li_prime + result.Ki_prime == prf('sha1', %s, K.K, keyword)" % OUT,
